@@ -16,6 +16,9 @@ Definition op_ok (o : op) : Prop :=
   | ORegister _ items => smap_ok items
   | ORender obj _ _ pa _ _ => obj_ok obj /\ pa <> PSynced
   | OHelp _ obj => obj_ok obj
+  | OMake _ _ _ _ pa _ => pa <> PSynced
+  | ONext _ obj _ => obj_ok obj
+  | OWholeH _ obj _ _ => obj_ok obj
   | _ => True
   end.
 
@@ -49,7 +52,7 @@ Qed.
 
 Lemma inv_step w o w' ts : inv fts w -> op_ok o -> step true fts w o = Ok (w', ts) -> inv fts w'.
 Proof.
-  intros Hi Hok. destruct o as [c nc init|c|c items|copt|obj copt nc pa mode ids|h ids|h obj]; cbn [step].
+  intros Hi Hok. destruct o as [c nc init|c|c items|copt|obj copt nc pa mode ids|h ids|h obj|h K copt nc pa ids|h obj ids|h obj mode ids]; cbn [step].
   - intros [= <- _]. eapply inv_move; [exact Hi|].
     destruct (new_conf_ok nc init true Hok) as (A & B & _). apply MNewConf; assumption.
   - intros [= <- _]. apply inv_gc. eapply inv_move; [exact Hi|]. apply MConf. apply conf_step_fields. apply incl_refl.
@@ -83,6 +86,23 @@ Proof.
     destruct (gen_lines true fts w cp obj) as [[w1 ls]|] eqn:E1; [|discriminate]. cbn [bind fst snd].
     intros [= <- _]. apply inv_gc. eapply inv_moves; [exact Hi|].
     apply (good_gen_lines true fts _ _ _ _ _ (proj1 Hi)) with (3 := E1); [|exact Hok].
+    unfold held. apply in_or_app. right. apply zfind_In in Eh. apply in_map_iff. exists (h, cp). auto.
+  - pose proof (inv_set_oracle w ids Hi) as H0.
+    destruct (mk_palette true (set_oracle w ids) K pa copt nc) as [[w1 cp]|] eqn:E1; [|discriminate].
+    cbn [bind fst snd]. intros [= <- _]. apply inv_gc.
+    pose proof (inv_mk_palette _ _ _ _ _ _ _ H0 Hok E1) as H1.
+    apply (inv_roots fts w1); auto.
+  - destruct (zfind h (w_hcmds w)) as [cp|] eqn:Eh; [|discriminate].
+    pose proof (inv_set_oracle w ids Hi) as H0.
+    destruct (gen_lines true fts (set_oracle w ids) cp obj) as [[w1 ls]|] eqn:E1; [|discriminate]. cbn [bind fst snd].
+    intros [= <- _]. apply inv_gc. eapply inv_moves; [exact H0|].
+    apply (good_gen_lines true fts _ _ _ _ _ (proj1 H0)) with (3 := E1); [|exact Hok].
+    unfold held. apply in_or_app. right. apply zfind_In in Eh. apply in_map_iff. exists (h, cp). auto.
+  - destruct (zfind h (w_hcmds w)) as [cp|] eqn:Eh; [|discriminate].
+    pose proof (inv_set_oracle w ids Hi) as H0.
+    destruct (consume true fts (set_oracle w ids) cp obj mode) as [[w1 ts1]|] eqn:E1; [|discriminate]. cbn [bind fst snd].
+    intros [= <- _]. apply inv_gc. eapply inv_moves; [exact H0|].
+    apply (good_consume true fts _ _ _ _ _ _ (proj1 H0)) with (3 := E1); [|exact Hok].
     unfold held. apply in_or_app. right. apply zfind_In in Eh. apply in_map_iff. exists (h, cp). auto.
 Qed.
 
